@@ -232,14 +232,16 @@ Definition step_pw_send (s : sys) (e : event) (r T p : N) (ks : list N) (async o
   chk (negb (fb c FHasm && async && mem p ks) ||
        (subset secs (c_lm c) && negb (mem p secs) && forallb (fun k => (k =? p) || mem k secs) (c_lm c))) else R6_async_secondaries;
   chk (negb (fb c FHasm && onepc) || subset (c_all c) ks) else R6_onepc_split;
-  let first := cn c FPwSent =? 0 in
   let c := incn c FPwSent in
-  let c := if async then (if first then setn c FTriedA 1 else c) else setn c FFb 1 in
-  let c := if onepc then (if first then setn c FTried1 1 else c) else setn c FFb1 1 in
+  let c := if async then setn c FTriedA 1 else setn c FFb 1 in
+  let c := if onepc then setn c FTried1 1 else setn c FFb1 1 in
   Ok (setc (add_sent s e) T c).
 
 Definition step_pw_deliver (s : sys) (r T : N) (ks : list N) (x : pw_res) : res :=
   chk (sent_by s (fun e => match e with EPwSend r' s' _ ks' _ _ _ _ _ => (r' =? r) && (s' =? T) && leqb ks' ks | _ => false end)) else N_no_send;
+  chk (match x with
+       | PwOk _ o => (o =? 0) || sent_by s (fun e => match e with EPwSend _ s' _ _ _ true _ _ _ => s' =? T | _ => false end)
+       | _ => true end) else S_onepc;
   let s1 := add_dlv s (EPwReply r T ks x) in
   match x with
   | PwOk m o =>
@@ -276,7 +278,7 @@ Definition step_cm_send (s : sys) (e : event) (r T C : N) (ks : list N) : res :=
     if mem (cn c FPrim) ks then Ok (setc (add_sent s e) T (incn c FPcSent))
     else chk ((cn c FPcOk =? C) || async_kept c) else R1_secondary_first;
          Ok (add_sent s e)
-  else Ok (add_sent s e).
+  else Ok (setc (add_sent s e) T (incn c FPcSent)).
 
 Definition step_cm_deliver (s : sys) (r T C : N) (ks : list N) (x : cm_res) : res :=
   chk (sent_by s (fun e => match e with ECmSend r' s' c' ks' => (r' =? r) && (s' =? T) && (c' =? C) && leqb ks' ks | _ => false end)) else N_no_send;
@@ -385,6 +387,7 @@ Definition step_hb_send (s : sys) (e : event) (r T p ttl : N) : res :=
 Definition step_told (s : sys) (T : N) (t : told_res) : res :=
   let c := getc s T in
   chk (negb (owner_crashed s T)) else X_crashed;
+  chk (cn c FTold =? 0) else R7_send_after_told;
   match t with
   | TOk => chk (negb (cn c FPcOk =? 0) || negb (cn c F1pcTs =? 0) ||
                 (async_kept c && fb c FHasm && subset (c_lm c) (c_pwok c))) else R7_ok_without_commit;
@@ -409,7 +412,7 @@ Definition stepr (s : sys) (e : event) : res :=
       Ok (setc s T (setn (setn (setn c FCalled 1) FCausal (if causal then 1 else 0)) FWm (s_tso s)))
   | EMutations T p ms =>
       let c := getc s T in
-      chk (negb (fb c FHasm) && (cn c FPwSent =? 0) && (cn c FPcSent =? 0) && negb (fb c FDead)) else R6_mutations_late;
+      chk (negb (fb c FHasm) && (cn c FPwSent =? 0) && (cn c FPcSent =? 0) && negb (fb c FDead) && (cn c FTold =? 0)) else R6_mutations_late;
       chk (mem p (lock_keys ms)) else R6_primary_not_locked;
       chk (forallb (fun x => match x with (s', _, JKey p') => negb (s' =? T) || (p' =? p) | _ => true end) (s_rs s)) else R3_wrong_primary;
       Ok (setc s T (set_muts (setn (setn c FHasm 1) FPrim p) (lock_keys ms) (map fst ms)))
